@@ -412,6 +412,28 @@ func (x *Exec) applyContract(st *State, fr *Frame, retTo ssa.Value, c *Contract,
 		ps.assume(cond)
 		ps.path = append(ps.path, fmt.Sprintf("%s:panics(%s)@%s", key, pc.PKind, posStr(x.fset, pos)))
 		x.raiseIn(ps, pfr, pv, pos, "panic from "+key)
+		if _, anns := x.siteAnns(ps, pfr, pos); len(anns) > 0 {
+			for _, a := range anns {
+				if a.Kind != "onpanic" {
+					continue
+				}
+				gs, isGhost := x.ghostSort(a.Ghost)
+				if !isGhost {
+					x.specFail(a.Cl, "onpanic: %s is not a ghost", a.Ghost)
+				}
+				senv := x.siteEnv(ps, pfr, pos)
+				senv.panicVal = &pv
+				var hint types.Type
+				if gs == sInt {
+					hint = mathInt
+				}
+				v := x.evalTerm(senv, a.Cl.Expr, hint, a.Cl)
+				if v.Sort != gs {
+					x.specFail(a.Cl, "onpanic %s: sort %s does not match %s", a.Ghost, v.Sort, gs)
+				}
+				ps.ghost[a.Ghost] = ps.def("ghost_"+a.Ghost, v)
+			}
+		}
 		out = append(out, ps)
 	}
 	// normal outcome
